@@ -1049,11 +1049,19 @@ def run_impl(case):
         from typedpy.serialization.serialization import deserialize_single_field
         ign = bool(decl.get("ignoreNone"))
         p1 = []
+        # as construct_fields_map calls it: with the field's part of the aggregated (identity) mapper, under which
+        # a null inside a nested / inline structure counts as an absent key
+        try:
+            from typedpy.serialization.mappers import aggregate_deserialization_mappers
+            agg = aggregate_deserialization_mappers(cls, deser_kwargs.get("mapper"), bool(deser_kwargs.get("camel_case_convert"))) or {}
+        except Exception:  # noqa
+            agg = {}
         for k, v in kw.items():
             if k not in decl_of or v is None:   # null document values are dropped by Deserializer
                 continue
             try:
-                deserialize_single_field(getattr(cls, k), v, k, ignore_none=ign)
+                sub = agg.get(f"{k}._mapper") if isinstance(agg, dict) else None
+                deserialize_single_field(getattr(cls, k), v, k, ignore_none=ign, mapper=sub)
             except (TypeError, ValueError):
                 p1.append(k)
             except Exception:  # noqa
